@@ -35,11 +35,12 @@ Definition model_flag (nt : net) (e : nevent) : option bool :=
   | EPutS w k => if n_alive (get nt w) then Some (snd (put_s nt w k)) else None
   | EGetS r k => if n_alive (get nt r) then Some (get_finds_s nt r k) else None
   | EPutGet r k => if n_alive (get nt r) then Some (get_finds nt r k) else None
+  | EGetJoin r k => if n_alive (get nt r) then Some false else None
   | _ => None
   end.
 
 Definition key_of (e : nevent) : option nat :=
-  match e with EPut _ k | EGet _ k | EPutS _ k | EGetS _ k | EPutGet _ k => Some k | _ => None end.
+  match e with EPut _ k | EGet _ k | EPutS _ k | EGetS _ k | EPutGet _ k | EGetJoin _ k => Some k | _ => None end.
 
 Fixpoint stored_eqb (nt : net) (k : nat) (i : nat) (stored : list nat) : bool :=
   match nt with
@@ -126,7 +127,7 @@ Definition first_learns (ps : pstate) (e : nevent) (o : nobs) : bool :=
 (* C01 after a get: if a live node other than the reader holds the key and the reader knows a live server, the value is found *)
 Definition c01_pb (ps : pstate) (e : nevent) (o : nobs) (before : list (list nat * list nat)) : bool :=
   match e with
-  | EGet r k | EGetS r k | EPutGet r k =>
+  | EGet r k | EGetS r k | EPutGet r k | EGetJoin r k =>
       if p_alive (pget ps r)
       then let holder := existsb (fun c => live_server ps c && negb (Nat.eqb c r)) (b_prev o) in
            let knows_live := existsb (live_server ps) (main_of before r) in
@@ -141,21 +142,26 @@ Definition c01_pb (ps : pstate) (e : nevent) (o : nobs) (before : list (list nat
   | _ => true
   end.
 
-Fixpoint run13_pb (ps : pstate) (before : list (list nat * list nat)) (crashed : bool) (steps : list (nevent * nobs)) : bool :=
+(* returns (the property holds on every step outside the known class, some step falls into the known class F23:
+   a get that joined an active lookup of another kind for the same target found nothing) *)
+Fixpoint run13_pb (ps : pstate) (before : list (list nat * list nat)) (crashed : bool) (steps : list (nevent * nobs)) : bool * bool :=
   match steps with
-  | [] => true
+  | [] => (true, false)
   | (e, o) :: r =>
       let ps' := papply ps e in
       let crashed' := crashed || match e with ECrash _ => true | _ => false end in
-      (if crashed' then true else c13_pb ps' e o && first_learns ps' e o)
-      && c01_pb ps' e o before
-      && run13_pb ps' (b_tables o) crashed' r
+      let c13 := if crashed' then true else c13_pb ps' e o && first_learns ps' e o in
+      let c01 := c01_pb ps' e o before in
+      let is_join := match e with EGetJoin _ _ => true | _ => false end in
+      let '(ok, known) := run13_pb ps' (b_tables o) crashed' r in
+      (c13 && (c01 || is_join) && ok, (is_join && negb c01) || known)
   end.
 
 Definition check13 (c : c13case) : list N :=
   match c with
   | KNet steps =>
-      (if run13_model [] steps then [] else [1%N]) ++ (if run13_pb [] [] false steps then [] else [2%N])
+      let '(ok, known) := run13_pb [] [] false steps in
+      (if run13_model [] steps then [] else [1%N]) ++ (if ok then [] else [2%N]) ++ (if known then [123%N] else [])
   end.
 
 Fixpoint run13 (k : N) (cs : list c13case) : list (N * N) :=
